@@ -56,6 +56,9 @@ def collect(ids):
       if os.path.exists(meta) and os.path.exists(pf):
         with open(meta) as f:
           m = json.load(f)
+        if m.get('obsolete'):
+          print('OBSOLETE %-4s %-55s %s' % (m['property'], os.path.relpath(pf, ROOT), m['obsolete'][:110]))
+          continue
         for pid in m.get('checks', [m['property']]):
           if ids and pid not in ids:
             continue
